@@ -70,28 +70,33 @@ LabellingsOf(D, K) ==
     LET free == {k \in K : Cardinality(D[k]) # 1}
         U == UNION {D[k] : k \in free}
     IN {[k \in K |-> IF k \in free THEN X[k] ELSE CHOOSE v \in D[k] : TRUE] : X \in {Y \in [free -> U] : \A k \in free : Y[k] \in D[k]}}
-PoolAdmits(cfg, q, L) == \A i \in DOMAIN q.reqs : Admits(cfg, q.reqs[i], L)
 TermKeys(t) == {t[j].key : j \in DOMAIN t}
-\* required constraints of the pod in force: node selector and the j-th required term (j = 0: no term)
-PodHoldsJ(cfg, e, j, L) == SelHolds(e.sel, L) /\ (j = 0 \/ TermHolds(cfg, e.terms[j], L))
-PodKeysJ(e, j) == DOMAIN e.sel \cup (IF j = 0 THEN {} ELSE TermKeys(e.terms[j]))
+PoolAdmits(cfg, q, L) == \A i \in DOMAIN q.reqs : Admits(cfg, q.reqs[i], L)
+\* constraints of the pod in force: node selector, the j-th required term (j = 0: no term) and the expressions px of the preferred
+\* term Karpenter currently treats as required (<<>> = none)
+PodHoldsJ(cfg, e, j, px, L) == SelHolds(e.sel, L) /\ (j = 0 \/ TermHolds(cfg, e.terms[j], L)) /\ TermHolds(cfg, px, L)
+PodKeysJ(e, j, px) == DOMAIN e.sel \cup (IF j = 0 THEN {} ELSE TermKeys(e.terms[j])) \cup TermKeys(px)
+\* preference policy Respect: the HEAVIEST preferred node-affinity term is scheduled as if it were required until it is relaxed away
+Respect(cfg) == cfg.options.preference # "Ignore"
+Heaviest(pref) == CHOOSE i \in DOMAIN pref : \A j \in DOMAIN pref : pref[j].weight <= pref[i].weight
+PrefInForce(cfg, e) == IF Respect(cfg) /\ e.pref # <<>> THEN e.pref[Heaviest(e.pref)].exprs ELSE <<>>
 PoolKeys(q) == {q.reqs[i].key : i \in DOMAIN q.reqs} \cup DOMAIN q.labels
 AllDaemonKeys(cfg) == UNION {DaemonKeys(d) : d \in Range(cfg.ds)}
 \* Karpenter treats PreferNoSchedule as required until it relaxed the pod (by ADDING a blanket toleration to the pod it
 \* schedules); `soft` = TRUE evaluates the taint the Kubernetes way (a preference never blocks)
 Blocking(t, soft) == t.effect \in {"NoSchedule", "NoExecute"} \/ (~soft /\ t.effect = "PreferNoSchedule")
 TaintsOK(tols, taints, soft) == \A t \in Range(taints) : Blocking(t, soft) => \E x \in Range(tols) : Tolerates(x, t)
-HostsOn(cfg, e, j, q, it, o) ==
+HostsOn(cfg, e, j, px, q, it, o) ==
     /\ o.available /\ o.ct # "reserved"                     \* reserved capacity is not counted (lower bound, see C17)
-    /\ LET K == PodKeysJ(e, j) \cup PoolKeys(q) \cup AllDaemonKeys(cfg)
+    /\ LET K == PodKeysJ(e, j, px) \cup PoolKeys(q) \cup AllDaemonKeys(cfg)
            D == [k \in K |-> LaunchDom(cfg, q, it, o, k)]
        IN \E L \in LabellingsOf(D, K) :
-            /\ PoolAdmits(cfg, q, L) /\ PodHoldsJ(cfg, e, j, L)
+            /\ PoolAdmits(cfg, q, L) /\ PodHoldsJ(cfg, e, j, px, L)
             /\ LET dm == {d \in Range(cfg.ds) : DaemonRuns(cfg, d, L, q.taints)} IN
                /\ LeqRes(AddRes(SumReq({e}), SumReq(dm)), OfferingAlloc(it, o))
                /\ \A d \in dm : ~PortsClash(e.ports, d.ports)
-FeasibleTypes(cfg, e, j, q, left) ==
-    {it \in PoolTypes(cfg, q) : WithinLimits(q, it, left) /\ \E i \in DOMAIN it.offerings : HostsOn(cfg, e, j, q, it, it.offerings[i])}
+FeasibleTypes(cfg, e, j, px, q, left) ==
+    {it \in PoolTypes(cfg, q) : WithinLimits(q, it, left) /\ \E i \in DOMAIN it.offerings : HostsOn(cfg, e, j, px, q, it, it.offerings[i])}
 \* the distinct values instance type `it` contributes to a minValues floor on key k
 TypeValues(it, k) ==
     CASE k = "it"   -> {it.name}
@@ -99,19 +104,25 @@ TypeValues(it, k) ==
       [] k = "ct"   -> {it.offerings[i].ct : i \in DOMAIN it.offerings}
       [] OTHER      -> IF k \in DOMAIN it.labels THEN {it.labels[k]} ELSE {}
 MinValuesMet(q, T) == \A i \in DOMAIN q.reqs : q.reqs[i].min > 0 => Cardinality(UNION {TypeValues(it, q.reqs[i].key) : it \in T}) >= q.reqs[i].min
-FeasibleJ(cfg, e, j, q, left, soft) ==
+FeasibleJ(cfg, e, j, px, q, left, soft) ==
     /\ PoolUsable(q)
     /\ TaintsOK(e.tol, q.taints, soft)
-    /\ LET T == FeasibleTypes(cfg, e, j, q, left) IN T # {} /\ (Strict(cfg) => MinValuesMet(q, T))
+    /\ LET T == FeasibleTypes(cfg, e, j, px, q, left) IN T # {} /\ (Strict(cfg) => MinValuesMet(q, T))
 TermInForce(e) == IF e.terms = <<>> THEN 0 ELSE 1
-FeasibleFresh(cfg, e, q, left) == FeasibleJ(cfg, e, TermInForce(e), q, left, FALSE)
-\* the Kubernetes reading of the pod: ANY required term may hold, PreferNoSchedule never blocks
-FeasibleRelaxed(cfg, e, q, left) == \E j \in (IF e.terms = <<>> THEN {0} ELSE DOMAIN e.terms) : FeasibleJ(cfg, e, j, q, left, TRUE)
-\* the forms Karpenter's relaxation ladder really tries for a pod without preferences: each required term in turn with
-\* PreferNoSchedule still blocking, and only the LAST term with the blanket toleration (preferences.go: Relax)
+FeasibleFresh(cfg, e, q, left) == FeasibleJ(cfg, e, TermInForce(e), PrefInForce(cfg, e), q, left, FALSE)
+\* the Kubernetes reading of the pod: ANY required term may hold, preferences and PreferNoSchedule never block
+FeasibleRelaxed(cfg, e, q, left) == \E j \in (IF e.terms = <<>> THEN {0} ELSE DOMAIN e.terms) : FeasibleJ(cfg, e, j, <<>>, q, left, TRUE)
+\* the forms Karpenter's relaxation ladder (preferences.go: Relax) really tries: each required term in turn (with the heaviest
+\* preference, PreferNoSchedule blocking); then, with the LAST term only, each lighter preference in turn, no preference, and finally
+\* no preference with the blanket PreferNoSchedule toleration
 FeasibleLadder(cfg, e, q, left) ==
-    IF e.terms = <<>> THEN FeasibleJ(cfg, e, 0, q, left, TRUE)
-    ELSE (\E j \in DOMAIN e.terms : FeasibleJ(cfg, e, j, q, left, FALSE)) \/ FeasibleJ(cfg, e, Len(e.terms), q, left, TRUE)
+    LET n == Len(e.terms)
+        J == IF n = 0 THEN {0} ELSE 1..n
+        P == IF Respect(cfg) THEN {e.pref[i].exprs : i \in DOMAIN e.pref} ELSE {} IN
+    \/ \E j \in J : FeasibleJ(cfg, e, j, PrefInForce(cfg, e), q, left, FALSE)
+    \/ \E px \in P : FeasibleJ(cfg, e, n, px, q, left, FALSE)
+    \/ FeasibleJ(cfg, e, n, <<>>, q, left, FALSE)
+    \/ FeasibleJ(cfg, e, n, <<>>, q, left, TRUE)
 
 (* the sub-alphabet for which FeasibleFresh is EXACT (the guard runs admissibility in the converse     *)
 (* direction, DESIGN 2.5); outside it the guard is not evaluated                                        *)
@@ -121,9 +132,14 @@ ExactScenario(cfg) ==
     /\ \A t \in Range(cfg.types) : \A i \in DOMAIN t.offerings : t.offerings[i].cpuOv = 0 /\ t.offerings[i].memOv = 0
     /\ \A d \in Range(cfg.ds) : Len(d.terms) <= 1 /\ DaemonKeys(d) \subseteq {"arch", "os", "it", "gen"}
 ExactPod(e) ==
-    /\ NoInterPod(e) /\ e.vols = <<>> /\ e.pref = <<>>
+    /\ NoInterPod(e) /\ e.vols = <<>>
     \* every key is constrained once (contradictory constraints on one key are the C12 / C01 findings, not C19's business)
     /\ \A j \in DOMAIN e.terms : DOMAIN e.sel \cap TermKeys(e.terms[j]) = {} /\ Cardinality(TermKeys(e.terms[j])) = Len(e.terms[j])
+    /\ \A i \in DOMAIN e.pref : /\ Cardinality(TermKeys(e.pref[i].exprs)) = Len(e.pref[i].exprs)
+                                 /\ DOMAIN e.sel \cap TermKeys(e.pref[i].exprs) = {}
+                                 /\ \A j \in DOMAIN e.terms : TermKeys(e.terms[j]) \cap TermKeys(e.pref[i].exprs) = {}
+    \* distinct weights: the code picks the heaviest preference with an unstable sort
+    /\ \A i, j \in DOMAIN e.pref : i # j => e.pref[i].weight # e.pref[j].weight
 
 (* G_C19_HighestWeightFeasible, at the moment pod e opens a new node in pool `pn`; left[name] = the     *)
 (* remaining limits of every pool BEFORE this open.  Ties in weight are free.                            *)
